@@ -113,6 +113,26 @@ def oracle(ctx, o, spec):
             ctx.violation('transparent', 'nothing absorbs but depth %r != (Rp/Rs)^2 %r' % (d, bare), replay=rp)
 
 
+def sources_oracle(ctx, model, o, spec):
+    """the integral sums over every species of every source: the per-layer cross-section a source hands to the path
+    integral is the sum of (abundance factor x raw cross-section) over ITS components, computed here from the public
+    opacity / cia / rayleigh functions (shared with C03)"""
+    import c03
+    for c in model.contribution_list:
+        comps = c03.components(model, c, o['wn'])
+        if comps is None:
+            continue
+        want = np.zeros((len(model.temperatureProfile), len(o['wn'])))
+        for name, f, x in comps:
+            want += np.asarray(f)[:, None] * np.asarray(x)
+        got = np.array(c.sigma_xsec, float)
+        if got.shape != want.shape or not np.allclose(got, want, rtol=1e-9, atol=0):
+            ctx.violation('source-total:' + type(c).__name__,
+                          '%s enters the optical depth with %r in layer 0 where the sum over its %d component(s) %r is %r'
+                          % (type(c).__name__, got[0][:3], len(comps), [n for n, _, _ in comps], want[0][:3]),
+                          replay=dict(spec=spec))
+
+
 def compare(o, res):
     paths, tr, depth = res
     top = o['Rp'] + o['zb'][-1]
@@ -150,9 +170,38 @@ def run(ctx):
                           replay=dict(spec=spec))
             continue
         oracle(ctx, o, spec)
+        sources_oracle(ctx, model, o, spec)
         obs.append(o)
         specs.append(spec)
         exprs.append(model_expr(o))
+        if rng.random() < 0.4:
+            # the same model object re-configured and evaluated again (what a retrieval does between likelihood calls)
+            upd = {}
+            try:
+                with np.errstate(all='ignore'):
+                    if rng.random() < 0.6:
+                        upd['planet_radius'] = float(model['planet_radius']) * rng.uniform(0.8, 1.2)
+                        model['planet_radius'] = upd['planet_radius']
+                    g = rng.choice(spec['gases'])
+                    if rng.random() < 0.6 and float(model[g]) > 0:
+                        upd[g] = float(model[g]) * 10 ** rng.uniform(-1, 1)
+                        model[g] = upd[g]
+                    if 'T' in model.fittingParameters and rng.random() < 0.6:
+                        upd['T'] = rng.uniform(300, 2500)
+                        model['T'] = upd['T']
+                    if rng.random() < 0.3:
+                        upd['star.radius'] = None
+                    o2 = observe(model)
+                spec2 = dict(spec, updated=upd)
+                oracle(ctx, o2, spec2)
+                sources_oracle(ctx, model, o2, spec2)
+                obs.append(o2)
+                specs.append(spec2)
+                exprs.append(model_expr(o2))
+                ctx.count('re-evaluated after update')
+            except Exception as e:
+                ctx.violation('impl-raises:update', 'TransmissionModel raised %r after parameter updates %r' % (e, upd),
+                              replay=dict(spec=spec, updated=upd))
         ctx.count('level:' + spec['level'])
         ctx.count('path:' + ('new' if o['newm'] else 'old'))
         ctx.count('layers:%d' % spec['nlayers'])
